@@ -76,11 +76,13 @@ CHECKS = {
             "field-wise identity and the context the bridged handler saw",
             "TLA+ spec + TLC (exhaustive small scope), replay of TLC-enumerated responses, trace validation"),
     "C19": ("hygiene", "6 C19", "the behavioural specifications are name-free, so C19 is: every configuration builds and its traces are accepted unchanged; "
-            "generic contract / interface with associated type under every single-letter and plain-word parameter name; routing and reply corpora "
+            "generic contract / interface with associated type under every single-letter and plain-word parameter name (and names of items the "
+            "generated code imports or defines), the published schema name compared across names; routing and reply corpora "
             "rebuilt with the framework imported only under another crate name",
             "TLA+ spec + TLC enumeration of configurations; rustc name resolution + unchanged trace specifications as the oracle"),
     "C20": ("remote", "6 C20", "RemoteHandle.tla (encode/decode of [ty, owned, addr]) model-checked; every (type parameter, owned/borrowed, address) case "
-            "replayed into the real Remote<T>; encoding, decoding of the prescribed literal and schema judged by TLC",
+            "replayed into the real Remote<T>; encoding, decoding of the prescribed literal (and of a document with further members), the encoding "
+            "of the decoded handles and the schema judged by TLC",
             "TLA+ spec + TLC (exhaustive small scope), replay into the real type, trace validation"),
     "C12": ("multitest", "6 C12", "Multitest.tla (abstract chain: store / instantiate with options / exec / query / sudo / migrate, plus the harness's own helpers "
             "update_block / set_block / code_info) simulated by TLC into "
